@@ -311,6 +311,26 @@ def c09_cases(tier, seed):
     return out
 
 
+def c09_order_search(tier, seed):
+    """Larger models (4-5 tasks) with mixed dependency kinds under the default TSLACK rule: many
+    models, a sample of visiting orders each (ties in the PERT passes are what can make the
+    order matter)."""
+    rng = _random.Random(seed + 99)
+    out = []
+    cfgs = families.random_cfgs(seed * 31 + 4242, 1500 if tier == "quick" else 12000, "S", components=False,
+                                facilities=False, absences=False, rules=False, autos=False)
+    for cfg in cfgs:
+        n = len(cfg["tasks"])
+        if n < 4 or all(d[2] == "FS" for d in cfg["deps"]):
+            continue
+        perms = rng.sample(list(itertools.permutations(range(n))), 8)
+        ops = [{"op": "simulate", "light": True}]
+        for p in perms:
+            ops += [{"op": "rebuild"}, _cmp({"op": "simulate", "ranks": list(p), "light": True}, 1, "C09", "lg")]
+        out.append(_hist(cfg, "c09order", ops))
+    return out
+
+
 def c15_cases(tier, seed):
     out = []
     pool = _pool(tier, seed, ["deps", "alloc", "placeflat", "pairs", "conveyor", "abs"], 25, 300, dict(), 60, 600)
@@ -321,7 +341,7 @@ def c15_cases(tier, seed):
         ops = [{"op": "simulate", "light": True}]
         for k in ks:
             ops += [{"op": "rebuild"}, {"op": "simulate", "opts": {"maxTime": k}, "light": True},
-                    _cmp({"op": "simulate", "initState": False, "initLog": False, "light": True}, 1, "C15", "lg")]
+                    _cmp({"op": "simulate", "initState": False, "initLog": False, "light": True}, 1, "C15", "all")]
         out.append(_hist(cfg, "c15", ops))
         if _saved_format_only(cfg):
             ops = [{"op": "simulate", "light": True}]
@@ -575,7 +595,7 @@ def c05_maxtime_cases(tier, seed):
 PLANS["C20"] = dict(cases=c20_cases)
 
 PLANS["C19"] = dict(cases=report_cases())
-PLANS["C09"] = dict(cases=c09_cases, l1=l1(dict(family="deps", invariants=["Inv_C09"])))
+PLANS["C09"] = dict(cases=both(c09_cases, c09_order_search), l1=l1(dict(family="deps", invariants=["Inv_C09"])))
 PLANS["C15"] = dict(cases=c15_cases, l1=l1(dict(family="deps", invariants=["Inv_C15"])))
 PLANS["C17"] = dict(cases=c17_cases, l1=l1(dict(family="deps", invariants=["Inv_C17"])))
 PLANS["C18"] = dict(cases=c18_cases, l1=l1(dict(family="abs", invariants=["Inv_C18"]), dict(family="placeflat", invariants=["Inv_C18"])))
